@@ -23,7 +23,7 @@ for d in sorted(glob.glob(V + "/seeded/C*/")):
     if m.get("status") == "retired":
         verdict, sigs = "RETIRED", "made benign by a later fix: commit"
     sg = "; ".join(sorted({re.sub(r" count=\d+", "", x).replace("check=", "").replace("sig=", "") for x in sigs.split("; ") if x})[:3])
-    if verdict == "MISSED" and m.get("status_note"):
+    if verdict in ("MISSED", "INFRA") and m.get("status_note"):
         sg = m["status_note"][:160]
     counts[verdict] = counts.get(verdict, 0) + 1
     rows.append("| %s | %s | %s | %s%s |" % (name, clean(m.get("summary"), 150), clean(m.get("needs"), 110), verdict, (": " + sg) if sg else ""))
